@@ -209,10 +209,12 @@ class Publish:
         # We're updating an existing file, so all of the following
         # should be available.
         self.readkey = self._node.get_readkey()
-        self.required_shares = self._node.get_required_shares()
-        assert self.required_shares is not None
-        self.total_shares = self._node.get_total_shares()
-        assert self.total_shares is not None
+        # The segments that are not rewritten stay encoded with the
+        # parameters of the version being updated, so the rewritten ones
+        # must use them too (the node's values are only its client's
+        # defaults until it has downloaded the file).
+        self.required_shares = version[5] # verinfo[5] == k
+        self.total_shares = version[6] # verinfo[6] == N
         self._status.set_encoding(self.required_shares, self.total_shares)
 
         self._pubkey = self._node.get_pubkey()
